@@ -73,7 +73,7 @@ def oracle(ctx, case, obs, spec):
     if d is not None:
         key, kind, lang, got, exp = d
         ctx.fail(Failure("text", f"element {key} {kind} for language {lang!r}: shown {got!r}, written {exp!r}", {"case": case},
-                         extra={"key": key, "kind": kind, "lang": lang}))
+                         extra={"key": key, "kind": kind, "lang": lang, "got": got, "exp": exp}))
         ok = False
     return ok
 
@@ -91,9 +91,9 @@ def lean_spec(ctx, case, view):
     two readings of the property is a harness defect, never a violation)."""
     v = ctx.driver.call("c08.spec", view=view, **L.driver_case(case))
     spec = {"langs": sorted(v["langs"]), "langs_content": sorted(v["langs_content"]),
-            "text": triples_to_text(v["texts"])}
+            "text": L.expand_choice_keys(case, triples_to_text(v["texts"]))}
     py = L.py_spec(case)
-    py_text = L.spec_text(py, view)
+    py_text = L.expand_choice_keys(case, L.spec_text(py, view))
     if py["langs"] != spec["langs"] or py["langs_content"] != spec["langs_content"] or py_text != spec["text"]:
         raise vcore.Infra("Lean Spec and Python reading of C08 disagree on " + json.dumps(case) + " : "
                           + json.dumps([py["langs"], spec["langs"], first_diff(py_text, spec["text"])]))
@@ -179,12 +179,10 @@ def one_case(ctx, case, tag=""):
     in_fragment = m["outcome"] != "unsupported"
     if in_fragment and m["outcome"] != expected and not (m["outcome"] == "error" and r["class"] == "pyxform"):
         ctx.mismatch("outcome", {"case": case}, r["class"] + " " + r.get("msg", "")[:200], m["outcome"])
+    if L.nested_default_hits(case):
+        ctx.count("shape:default-suffix-after-unsuffixed-and-other")  # F39 / C17 crash shape, repaired by b0e6b55
     if r["class"] == "internal":
-        if L.nested_default_shape(case) and m["outcome"] in ("crash", "unsupported"):
-            # a crash, not a wrong text: C17's finding (merge_dicts nests {dl: {dl: text}}); nothing for C08 to observe
-            ctx.count("skipped:c17-crash-nested-default-language")
-        else:
-            ctx.fail(Failure("crash", r["msg"], {"case": case}))
+        ctx.fail(Failure("crash", r["msg"], {"case": case}))
     elif r["class"] == "ok":
         obs = L.observe(r["xform"], case)
         spec = lean_spec(ctx, case, obs["langs"] or [""])
@@ -210,6 +208,10 @@ def explore(ctx, factor, bs):
     ctx.notes["exhaustive"] = True
     for case in L.directed_cases():
         one_case(ctx, case, tag="dir:")
+    fam = list(L.search_family())
+    rng.shuffle(fam)
+    for form in fam[: ctx.pick(150, len(fam)) * (1 if factor == 1 else 2)]:
+        one_case(ctx, L.render(form), tag="search:")
     n = ctx.pick(1500, 40000) * factor
     for i in range(n):
         form = L.random_form(rng, big=not ctx.quick())
@@ -220,12 +222,21 @@ def is_f38(f: Failure) -> bool:
     return f.kind == "language-missing-empty-column"
 
 
-def is_f39(f: Failure) -> bool:
-    """wrong/missing text of a *choice* whose row has the nested-default shape for that very kind"""
-    if f.kind != "text" or not f.extra.get("key", "").startswith("c"):
+def is_f40(f: Failure) -> bool:
+    """in-line choice label of a search() select missing (nothing shown) when the *question* has no label cell at all and
+    the list is not itext-bearing: `elif self.label and option.label` in MultipleChoiceQuestion.build_xml"""
+    if f.kind != "text" or f.extra.get("kind") != "label" or f.extra.get("got") is not None or "@" not in f.extra.get("key", ""):
         return False
-    hits = L.nested_default_hits(f.case["case"])
-    return ("choices", int(f.extra["key"][1:]), f.extra["kind"]) in hits
+    case = f.case["case"]
+    ckey, skey = f.extra["key"].split("@")
+    row = case["survey"][int(skey[1:])]
+    if "search(" not in str(row.get("appearance", "")):
+        return False
+    double = any("::" in h for h in case["survey_cols"])
+    has_label = any((L.read_header(h, double) or ("", None))[0] == "label" and v not in (None, "") for h, v in row.items())
+    spec = L.py_spec(case)
+    inline = spec["plan"].get(ckey, {}).get("label", ("", None))[0] == "inline"
+    return (not has_label) and inline
 
 
 def replay(ctx, payload, bs):
@@ -235,4 +246,4 @@ def replay(ctx, payload, bs):
 
 
 def main(argv):
-    return vcore.run_check(PROP, explore, RULE, matchers={"F38-empty-translated-column": is_f38, "F39-choices-default-suffix-nested": is_f39}, replay=replay, argv=argv)
+    return vcore.run_check(PROP, explore, RULE, matchers={"F38-empty-translated-column": is_f38, "F40-search-inline-label-needs-question-label": is_f40}, replay=replay, argv=argv)
